@@ -1,7 +1,540 @@
-//! C06 — not implemented yet.
-use vcore::Ctx;
+//! C06 — restoring a cached pass-1 fragment reproduces the analyzer state.
+//!
+//! Generator: a file set (corpus files with what they need, and/or generated
+//! files covering declaration kinds), 0–3 generated filler files in front,
+//! processing orders π (capture run) and π' (restore run), and the set R of
+//! files restored from their fragment (mostly one file).
+//!
+//! Runs, each on a fresh thread, each driven like pipeline.rs/incremental.rs:
+//!   A   parse + pass1 every file in order π, capture every file's fragment
+//!       (watermark / capture / to_bytes);
+//!   B   order π', other filler count; files in R go through from_bytes /
+//!       set_project / restore (on Err: drop_file + parse), the rest is parsed;
+//!   B'  as B, but R is parsed too (and, like a restored file, gets no pass 2
+//!       and is not emitted).
+//! Oracle: B and B' agree on every table the fragment feeds (read back with
+//! the exporters capture itself uses, all fields via `Debug`), on the symbol
+//! table / scope tree / type DAG after post-pass1 and after post-pass2, on
+//! the multiset of diagnostics of every stage, and on the emitted
+//! SystemVerilog + source map of every emitted file.
 
-pub fn run(_ctx: &Ctx) {
-    println!("INCONCLUSIVE property=C06: check not implemented");
-    std::process::exit(2);
+mod corpus;
+mod vgenr;
+mod norm;
+mod pipe;
+
+use pipe::{FileIn, How, Reached, Role, RunOut};
+use vcore::{CaseCfg, Ctx, Draw, Outcome, hash_str, json};
+
+fn isolated(files: Vec<FileIn>, roles: Vec<Role>, capture: bool) -> Result<RunOut, String> {
+    let h = std::thread::Builder::new()
+        .stack_size(32 << 20)
+        .spawn(move || pipe::run_pipeline(&files, &roles, capture))
+        .expect("spawn");
+    h.join().map_err(|e| {
+        if let Some(s) = e.downcast_ref::<String>() {
+            s.clone()
+        } else if let Some(s) = e.downcast_ref::<&str>() {
+            s.to_string()
+        } else {
+            "panic".to_string()
+        }
+    })
+}
+
+struct Case {
+    files: Vec<FileIn>,
+    fillers: Vec<FileIn>,
+    fa: usize,
+    fb: usize,
+    pi: Vec<usize>,
+    pi2: Vec<usize>,
+    restore: Vec<usize>,
+    classes: Vec<String>,
+    origin: String,
+}
+
+fn permutation(d: &mut Draw, n: usize) -> Vec<usize> {
+    let mut p: Vec<usize> = (0..n).collect();
+    for i in (1..n).rev() {
+        let j = d.below_usize(i + 1);
+        p.swap(i, j);
+    }
+    p
+}
+
+fn gen_case(d: &mut Draw, corpus: &corpus::Corpus) -> Option<Case> {
+    let mut classes = Vec::new();
+    let mut files: Vec<FileIn> = Vec::new();
+    let mut origin = String::new();
+    // 0: corpus set, 1: generated set, 2: both, 3: a corpus file cut into parts
+    let kind = d.weighted(&[4, 5, 2, 4]);
+    let mut preferred: Vec<usize> = Vec::new();
+    let push_corpus = |files: &mut Vec<FileIn>, i: usize| {
+        let f = &corpus.files[i];
+        files.push(FileIn {
+            label: String::new(),
+            path: f.path.clone(),
+            text: f.text.clone(),
+            prj: f.prj.clone(),
+        });
+    };
+    if kind == 0 || kind == 2 {
+        // a file that somebody uses, plus a user, plus what both need
+        let nroots = d.usize_in(1, 2);
+        let mut roots = Vec::new();
+        for _ in 0..nroots {
+            let r = d.below_usize(corpus.files.len());
+            roots.push(r);
+            let f = &corpus.files[r];
+            if !f.users.is_empty() && d.chance(3, 4) {
+                roots.push(f.users[d.below_usize(f.users.len())]);
+            }
+        }
+        let set = corpus.closure(&roots, 14)?;
+        for &i in &set {
+            let f = &corpus.files[i];
+            if roots.contains(&i) || f.users.iter().any(|u| set.contains(u)) {
+                preferred.push(files.len());
+            }
+            push_corpus(&mut files, i);
+        }
+        origin.push_str("corpus");
+        classes.push("set=corpus".to_string());
+        if set.iter().any(|&i| corpus.files[i].prj == "$std") {
+            classes.push("has_std_project_file".into());
+        }
+    }
+    if kind == 3 {
+        let cands: Vec<usize> = (0..corpus.files.len())
+            .filter(|&i| corpus.files[i].items.iter().filter(|x| !x.is_import).count() >= 2)
+            .collect();
+        let r = cands[d.below_usize(cands.len())];
+        let set = corpus.closure(&[r], 14)?;
+        let f = &corpus.files[r];
+        let stem = f.path.trim_end_matches(".veryl");
+        for (j, text) in vgenr::split_corpus_file(d, &f.items).into_iter().enumerate() {
+            preferred.push(files.len());
+            files.push(FileIn {
+                label: String::new(),
+                path: format!("{stem}_c06part{j}.veryl"),
+                text,
+                prj: f.prj.clone(),
+            });
+        }
+        for &i in &set {
+            if i != r {
+                push_corpus(&mut files, i);
+            }
+        }
+        origin.push_str("corpus-file-cut-into-parts");
+        classes.push("set=corpus_file_cut_into_parts".to_string());
+        if f.prj == "$std" {
+            classes.push("has_std_project_file".into());
+        }
+    }
+    if kind == 1 || kind == 2 {
+        let g = vgenr::file_set(d);
+        for c in &g.classes {
+            classes.push(c.clone());
+        }
+        for (name, text) in g.files {
+            preferred.push(files.len());
+            files.push(FileIn {
+                label: String::new(),
+                // a virtual path next to the testcases, so that
+                // `include(.., "52_include.sv")` resolves; nothing is written
+                path: format!("{}/testcases/veryl/c06_{name}.veryl", vcore::util::repo_root()),
+                text,
+                prj: pipe::ROOT_PRJ.to_string(),
+            });
+        }
+        if !origin.is_empty() {
+            origin.push('+');
+        }
+        origin.push_str("generated");
+        classes.push("set=generated".to_string());
+    }
+    if files.is_empty() {
+        return None;
+    }
+    // a generated user of the plain modules / interfaces of the corpus part:
+    // every one of them gets a cross-file reference
+    if kind != 1 && d.chance(1, 2) {
+        let mut comps: Vec<(usize, bool, String)> = Vec::new();
+        for (fi, f) in files.iter().enumerate() {
+            for (is_mod, name) in corpus::plain_components(&f.text) {
+                let q = if f.prj == "$std" { format!("$std::{name}") } else { name };
+                comps.push((fi, is_mod, q));
+            }
+        }
+        if !comps.is_empty() {
+            let n = d.usize_in(1, 4);
+            let mut body = String::new();
+            for j in 0..n {
+                let (fi, is_mod, name) = &comps[d.below_usize(comps.len())];
+                if *is_mod {
+                    body.push_str(&format!("    #[allow(missing_port)]\n    inst u{j}: {name};\n"));
+                } else {
+                    body.push_str(&format!("    inst u{j}: {name};\n"));
+                }
+                if !preferred.contains(fi) {
+                    preferred.push(*fi);
+                }
+            }
+            files.push(FileIn {
+                label: String::new(),
+                path: format!("{}/testcases/veryl/c06_user.veryl", vcore::util::repo_root()),
+                text: format!("/// generated user\nmodule C06User {{\n{body}}}\n"),
+                prj: pipe::ROOT_PRJ.to_string(),
+            });
+            classes.push("generated_user_file".into());
+        }
+    }
+    for (k, f) in files.iter_mut().enumerate() {
+        f.label = format!("f{k}");
+    }
+    let fillers: Vec<FileIn> = (0..3)
+        .map(|k| FileIn {
+            label: format!("fill{k}"),
+            path: format!("/c06/filler/fill{k}.veryl"),
+            text: vgenr::filler(d, k),
+            prj: pipe::ROOT_PRJ.to_string(),
+        })
+        .collect();
+    let fa = d.weighted(&[2, 1, 1, 1]);
+    let fb = d.weighted(&[2, 1, 1, 1]);
+    let n = files.len();
+    let pi = permutation(d, n);
+    let pi2 = permutation(d, n);
+    // restored set: mostly one file that others use
+    let pick = |d: &mut Draw| -> usize {
+        if !preferred.is_empty() && d.chance(4, 5) {
+            preferred[d.below_usize(preferred.len())]
+        } else {
+            d.below_usize(n)
+        }
+    };
+    let mut restore = vec![pick(d)];
+    if d.chance(1, 4) {
+        let extra = d.usize_in(1, n.min(4));
+        for _ in 0..extra {
+            let x = pick(d);
+            if !restore.contains(&x) {
+                restore.push(x);
+            }
+        }
+    }
+    restore.sort();
+    Some(Case {
+        files,
+        fillers,
+        fa,
+        fb,
+        pi,
+        pi2,
+        restore,
+        classes,
+        origin,
+    })
+}
+
+fn first_diff(a: &str, b: &str) -> String {
+    let (la, lb): (Vec<&str>, Vec<&str>) = (a.lines().collect(), b.lines().collect());
+    for i in 0..la.len().max(lb.len()) {
+        let (x, y) = (la.get(i).copied().unwrap_or("<no line>"), lb.get(i).copied().unwrap_or("<no line>"));
+        if x != y {
+            // narrow long lines to the first differing region
+            let p = x.bytes().zip(y.bytes()).take_while(|(p, q)| p == q).count();
+            let cut = |s: &str| {
+                let mut st = p.saturating_sub(160);
+                while !s.is_char_boundary(st) {
+                    st -= 1;
+                }
+                let mut en = (p + 240).min(s.len());
+                while !s.is_char_boundary(en) {
+                    en += 1;
+                }
+                s[st..en].to_string()
+            };
+            return format!(
+                "line {} (of {} / {}), first difference at byte {p}:\n  restored: …{}…\n  fresh   : …{}…",
+                i + 1,
+                la.len(),
+                lb.len(),
+                cut(x),
+                cut(y)
+            );
+        }
+    }
+    "(equal)".into()
+}
+
+/// `pass1/f3/symbols` → `pass1/symbols`: the signature names the table, not the file.
+fn section_kind(name: &str) -> String {
+    name.split('/')
+        .filter(|p| {
+            !(p.len() >= 2 && p.starts_with('f') && p[1..].chars().all(|c| c.is_ascii_digit())
+                || p.starts_with("fill"))
+        })
+        .collect::<Vec<_>>()
+        .join("/")
+}
+
+fn run_case(d: &mut Draw, corpus: &corpus::Corpus) -> Outcome {
+    let Some(c) = gen_case(d, corpus) else {
+        return Outcome::skip("drawn corpus roots need more than 14 files");
+    };
+    let order = |fill: usize, perm: &[usize]| -> Vec<FileIn> {
+        let mut v: Vec<FileIn> = c.fillers[..fill].to_vec();
+        v.extend(perm.iter().map(|&i| c.files[i].clone()));
+        v
+    };
+    let names: Vec<String> = c.files.iter().map(|f| f.path.rsplit('/').next().unwrap().to_string()).collect();
+    let input = json!({
+        "files": c.files.iter().map(|f| json!({"label": f.label, "path": f.path, "prj": f.prj, "text": if f.path.contains("c06") { f.text.clone() } else { "(repository file, unchanged)".to_string() }})).collect::<Vec<_>>(),
+        "fillers": c.fillers.iter().map(|f| f.text.clone()).collect::<Vec<_>>(),
+        "fillers_in_capture_run": c.fa, "fillers_in_restore_run": c.fb,
+        "capture_order": c.pi, "restore_order": c.pi2, "restored": c.restore,
+    });
+
+    // ---- run A: capture ------------------------------------------------
+    let files_a = order(c.fa, &c.pi);
+    let roles_a = vec![Role::Parse; files_a.len()];
+    let a = match isolated(files_a.clone(), roles_a, true) {
+        Ok(a) => a,
+        Err(p) => return Outcome::skip(format!("fresh analysis panics (C11's business): {}", p.lines().next().unwrap_or(""))),
+    };
+    if let Reached::ParseError(e) = &a.reached {
+        if std::env::var("VERIF_C06_DEBUG").is_ok() {
+            eprintln!("DEBUG parse error: {e}\n{}", files_a.iter().map(|f| format!("--- {}\n{}", f.path, f.text)).collect::<String>());
+        }
+        return Outcome::skip("a file does not parse");
+    }
+    if std::env::var("VERIF_C06_DEBUG").is_ok() && a.diags.iter().any(|x| x.is_error) && c.origin != "corpus" {
+        eprintln!(
+            "DEBUG errors in {} {:?}: {:?}",
+            c.origin,
+            c.classes,
+            a.diags.iter().filter(|x| x.is_error).map(|x| format!("[{}] {} {} @{}", x.stage, x.code, x.message, x.path.rsplit('/').next().unwrap_or(""))).collect::<Vec<_>>()
+        );
+    }
+    // fragment bytes per case-file index
+    let mut frag: Vec<Option<Result<Vec<u8>, String>>> = vec![None; c.files.len()];
+    let mut frag_syms = vec![0usize; c.files.len()];
+    for (k, f) in files_a.iter().enumerate() {
+        if let Some(i) = c.files.iter().position(|x| x.label == f.label) {
+            frag[i] = a.captured[k].clone();
+            frag_syms[i] = a.sym_count[k];
+        }
+    }
+    let mut classes = c.classes.clone();
+    let mut restore: Vec<usize> = Vec::new();
+    let mut refused = Vec::new();
+    for &i in &c.restore {
+        match &frag[i] {
+            None => {}
+            Some(Err(e)) => refused.push(format!("{}: {e}", names[i])),
+            Some(Ok(_)) => restore.push(i),
+        }
+    }
+    if !refused.is_empty() {
+        classes.push("refused_at_capture".into());
+    }
+    if restore.is_empty() {
+        if !refused.is_empty() {
+            // allowed by the property: nothing is stored, nothing to restore
+            return Outcome::pass(
+                hash_str(&format!("{input}")),
+                false,
+                classes,
+                format!("refused at capture time: {refused:?}"),
+            );
+        }
+        return Outcome::skip("pass 1 of the chosen file reports diagnostics (callers pass cacheable=false)");
+    }
+
+    // ---- runs B and B' ---------------------------------------------------
+    let files_b = order(c.fb, &c.pi2);
+    let mut roles_b = Vec::new();
+    let mut roles_f = Vec::new();
+    for f in &files_b {
+        let idx = c.files.iter().position(|x| x.label == f.label);
+        match idx {
+            Some(i) if restore.contains(&i) => {
+                let Some(Ok(bytes)) = &frag[i] else { unreachable!() };
+                roles_b.push(Role::Restore(bytes.clone()));
+                roles_f.push(Role::ParseNoPass2);
+            }
+            _ => {
+                roles_b.push(Role::Parse);
+                roles_f.push(Role::Parse);
+            }
+        }
+    }
+    let fresh = match isolated(files_b.clone(), roles_f, true) {
+        Ok(x) => x,
+        Err(p) => return Outcome::skip(format!("fresh analysis panics (C11's business): {}", p.lines().next().unwrap_or(""))),
+    };
+    let what = format!(
+        "{} files {:?}, restored {:?}, fillers {}→{}, orders {:?}→{:?}",
+        c.origin,
+        names,
+        restore.iter().map(|&i| names[i].as_str()).collect::<Vec<_>>(),
+        c.fa,
+        c.fb,
+        c.pi,
+        c.pi2
+    );
+    let rest = match isolated(files_b.clone(), roles_b, true) {
+        Ok(x) => x,
+        Err(p) => {
+            return Outcome::fail(
+                "panic-only-with-restored-fragment",
+                format!("{what}: the run that restores the fragment panics ({p}); the run that parses the file does not"),
+                input,
+            );
+        }
+    };
+
+    // ---- oracle --------------------------------------------------------
+    let mut fallback = false;
+    for (k, h) in rest.how.iter().enumerate() {
+        match h {
+            How::DecodeFailed(e) | How::RestoreFailed(e) => {
+                fallback = true;
+                classes.push(format!(
+                    "restore_error_fallback:{}",
+                    if matches!(h, How::DecodeFailed(_)) { "decode" } else { "restore" }
+                ));
+                let _ = (k, e);
+            }
+            _ => {}
+        }
+    }
+    if rest.reached != fresh.reached {
+        return Outcome::fail(
+            "stage-reached-differs",
+            format!("{what}: restored run ends at {:?}, fresh run at {:?}", rest.reached, fresh.reached),
+            input,
+        );
+    }
+    let (mut dr, mut df) = (rest.diags.clone(), fresh.diags.clone());
+    dr.sort();
+    df.sort();
+    if dr != df {
+        let only_r: Vec<String> = dr.iter().filter(|x| !df.contains(x)).map(|x| format!("[{}] {} {} @{} {:?}", x.stage, x.code, x.message, x.path, x.spans)).collect();
+        let only_f: Vec<String> = df.iter().filter(|x| !dr.contains(x)).map(|x| format!("[{}] {} {} @{} {:?}", x.stage, x.code, x.message, x.path, x.spans)).collect();
+        let stage = dr.iter().filter(|x| !df.contains(x)).chain(df.iter().filter(|x| !dr.contains(x))).map(|x| x.stage).next().unwrap_or("count");
+        return Outcome::fail(
+            format!("diagnostics-differ:{stage}{}", if fallback { ":after-fallback" } else { "" }),
+            format!("{what}: only with the restored fragment {only_r:?}; only with a fresh parse {only_f:?}"),
+            input,
+        );
+    }
+    if rest.sections.len() != fresh.sections.len() {
+        return Outcome::fail("state-differs:section-count", format!("{what}: {} vs {} dump sections", rest.sections.len(), fresh.sections.len()), input);
+    }
+    for ((nr, tr), (nf, tf)) in rest.sections.iter().zip(&fresh.sections) {
+        if nr != nf || tr != tf {
+            return Outcome::fail(
+                format!("state-differs:{}{}", section_kind(nr), if fallback { ":after-fallback" } else { "" }),
+                format!("{what}: dump `{nr}` differs between the run that restores the fragment and the run that parses the file; {}", first_diff(tr, tf)),
+                input,
+            );
+        }
+    }
+    let aligned = rest.slots.iter().zip(&fresh.slots).all(|(x, y)| x.before == y.before && x.after == y.after);
+    if aligned {
+        for ((nr, tr), (_, tf)) in rest.raw_sections.iter().zip(&fresh.raw_sections) {
+            if tr != tf {
+                return Outcome::fail(
+                    format!("state-differs:{}", section_kind(nr)),
+                    format!("{what}: `{nr}` differs; {}", first_diff(tr, tf)),
+                    input,
+                );
+            }
+        }
+    } else {
+        classes.push("id_layout_differs(raw dumps not compared)".into());
+    }
+    if rest.emitted.len() != fresh.emitted.len() {
+        return Outcome::fail("emitted-file-set-differs", what, input);
+    }
+    for ((lr, sr, mr), (_, sf, mf)) in rest.emitted.iter().zip(&fresh.emitted) {
+        if sr != sf {
+            return Outcome::fail(
+                "emitted-sv-differs",
+                format!("{what}: SystemVerilog of {lr} differs; {}", first_diff(sr, sf)),
+                input,
+            );
+        }
+        if mr != mf {
+            return Outcome::fail("source-map-differs", format!("{what}: source map of {lr} differs"), input);
+        }
+    }
+
+    // ---- classes / non-triviality -----------------------------------------
+    let mut nontrivial = false;
+    for (k, f) in files_b.iter().enumerate() {
+        let Some(i) = c.files.iter().position(|x| x.label == f.label) else { continue };
+        if !restore.contains(&i) || rest.how[k] != How::Restored {
+            continue;
+        }
+        if fresh.sym_count[k] > 0 && fresh.xref[k] {
+            nontrivial = true;
+        }
+        if k == c.fb {
+            classes.push("restored_first".into());
+        }
+        if k + 1 == files_b.len() {
+            classes.push("restored_last".into());
+        }
+    }
+    classes.push(format!("fillers_capture={}", c.fa));
+    classes.push(format!("fillers_restore={}", c.fb));
+    if c.fa != c.fb {
+        classes.push("filler_count_changed".into());
+    }
+    if c.pi != c.pi2 {
+        classes.push("order_changed".into());
+    }
+    classes.push(format!("restored_files={}", restore.len().min(3)));
+    classes.push(format!("files={}", match c.files.len() { 1 => "1", 2..=3 => "2-3", 4..=7 => "4-7", _ => "8+" }));
+    classes.push(match &fresh.reached {
+        Reached::Emitted => "reached=emit".to_string(),
+        Reached::StoppedAfter(s) => format!("reached={s}(errors)"),
+        Reached::ParseError(_) => "reached=parse-error".to_string(),
+    });
+    if fresh.diags.iter().any(|x| !x.is_error) {
+        classes.push("has_warnings".into());
+    }
+    if nontrivial {
+        classes.push("nontrivial".into());
+    }
+    let key = hash_str(&format!(
+        "{:?}{:?}{}{}{:?}{:?}{:?}",
+        c.files.iter().map(|f| hash_str(&f.text)).collect::<Vec<_>>(),
+        restore,
+        c.fa,
+        c.fb,
+        c.pi,
+        c.pi2,
+        c.fillers.iter().map(|f| hash_str(&f.text)).collect::<Vec<_>>()
+    ));
+    Outcome::pass(key, nontrivial, classes, what)
+}
+
+pub fn run(ctx: &Ctx) {
+    let corpus = corpus::load();
+    let n = std::env::var("VERIF_C06_CASES").ok().and_then(|x| x.parse().ok()).unwrap_or_else(|| ctx.scale(400, 20_000));
+    ctx.run("restore", CaseCfg::cases(n).choices(1200).stack_mb(16), |d| run_case(d, &corpus));
+    ctx.assume("in-process: the harness calls fragment_cache::{watermark,capture,restore}, Fragment::{to_bytes,from_bytes}, scope::set_project and Analyzer::drop_file in the order pipeline.rs / incremental.rs (CLI) and server.rs / incremental.rs (language server) do; the on-disk store (veryl_cache::Store) is C29's subject");
+    ctx.assume("a restored file gets no pass 2 and is not emitted (the pipeline has no AST for it); its fresh-parse counterpart is treated the same way, so the comparison isolates the fragment");
+    ctx.assume("runs stop like fail_fast: after post-pass1, at the first file whose pass 2 reports an error, or after post-pass2 when an error was reported; both runs must stop at the same point with the same diagnostics");
+    ctx.assume("raw numbers of StrId / PathId / ScopeId are not compared (interning order differs legitimately); they are replaced by the string / path / scope name path. TokenId / SymbolId / DefinitionId / TextId are compared as (file, offset in the file's id window); entries of hash maps are sorted");
+    ctx.finish(
+        "exploration",
+        "file sets (a corpus file + a user + everything they mention, and/or a generated multi-file set of declaration kinds), 0-3 generated filler files in front (independently for the capture and the restore run), two processing orders, and the restored file(s). Non-trivial: the restored fragment holds > 0 symbols and a token of another file references one of them. Distinct by (file texts, restored set, filler counts + texts, orders)",
+    );
 }
